@@ -122,7 +122,8 @@ fn check(case: &Case, obs: &mut Obs) -> Verdict {
             for w in lo..=hi {
                 let mut ow = o.clone();
                 ow.width = w;
-                let lines = textwrap::wrap(&text, ow.build());
+                let built = ow.build();
+                let lines = if ow.by_ref(&text) { textwrap::wrap(&text, &built) } else { textwrap::wrap(&text, ow.build()) };
                 obs.calls += 1;
                 let got: &[std::borrow::Cow<str>] = if second {
                     if lines.is_empty() || lines[0] != o.ii.as_str() {
@@ -133,7 +134,7 @@ fn check(case: &Case, obs: &mut Obs) -> Verdict {
                     &lines[..]
                 };
                 // fill must agree: the indent line (second-paragraph mode), then the paragraph without trailing spaces
-                let filled = textwrap::fill(&text, ow.build());
+                let filled = ow.fill(&text);
                 obs.calls += 1;
                 let want_filled = if second { format!("{}{}{}", o.ii, o.le(), want) } else { want.clone() };
                 if filled != want_filled {
@@ -173,8 +174,9 @@ fn check(case: &Case, obs: &mut Obs) -> Verdict {
         "fits_large" => {
             let line = case.t(0);
             let want = line.trim_end_matches(' ').to_string();
-            let lines = textwrap::wrap(line, o.build());
-            let filled = textwrap::fill(line, o.build());
+            let built = o.build();
+            let lines = if o.by_ref(line) { textwrap::wrap(line, &built) } else { textwrap::wrap(line, o.build()) };
+            let filled = o.fill(line);
             obs.calls += 2;
             if textwrap::core::display_width(line) <= o.width && clean_ansi(line) && !line.contains('\n') && o.split != Split::Custom && (lines.len() != 1 || lines[0] != want || filled != want) {
                 return Verdict::Violated(format!(
@@ -231,7 +233,7 @@ fn check(case: &Case, obs: &mut Obs) -> Verdict {
             if !clean_ansi(text) && text.split(o.le()).any(|p| !clean_ansi(p) && ref_width(p).min(textwrap::core::display_width(p)) + ref_width(&o.si).max(ref_width(&o.ii)) <= o.width) {
                 return Verdict::Skipped("malformed sequences and a whole paragraph fits by display width: either result is acceptable");
             }
-            let a = textwrap::fill(text, o.build());
+            let a = o.fill(text);
             let b = textwrap::fuzzing::fill_slow_path(text, o.build());
             obs.calls += 2;
             if a != b {
